@@ -32,8 +32,9 @@ worker() {
         code=$(echo "$out" | sed -n 's/^EXIT=//p' | tail -1)
         classes=$(echo "$out" | sed -n 's/.*violation class=\([^:]*\):.*/\1/p' | sort -u | tr '\n' ' ')
         spins=$(echo "$out" | grep -c "stuck")
+        nviol=$(echo "$out" | sed -n 's/.* runs=[0-9]* .* violations=\([0-9]*\) (known \([0-9]*\)).*/\1-\2/p' | tail -1)
         if echo "$out" | grep -q SKIP-DOES-NOT-APPLY; then echo "SKIP    $prop $rel (does not apply)" >> $BASE/results.txt
-        elif [ "$code" = "1" ]; then echo "CAUGHT  $prop $rel  [$classes] stuck=$spins" >> $BASE/results.txt
+        elif [ "$code" = "1" ]; then echo "CAUGHT  $prop $rel  [$classes] stuck=$spins violating_runs(total-known)=$nviol" >> $BASE/results.txt
         else echo "MISSED  $prop $rel exit=$code" >> $BASE/results.txt; fi
     done < $list
 }
